@@ -122,9 +122,11 @@ def lemma_uuid_ints(v16, v32):
     assert len(b.to_pdu_bytes()) == 16
     # and the expanded form parses back to an equal UUID that keeps its own (128-bit) width
     c = core.UUID.from_bytes(b.to_pdu_bytes())
-    assert c == b and c.to_bytes() == b.to_pdu_bytes()
+    assert c == b
+    assert c.to_bytes() == b.to_pdu_bytes()
     # the earlier objects still serialise with the width they were created with
-    assert a.to_bytes() == bytes([v16 % 256, v16 // 256]) and len(b.to_bytes()) == 4
+    assert a.to_bytes() == bytes([v16 % 256, v16 // 256])
+    assert len(b.to_bytes()) == 4
 
 
 lemma(
@@ -145,8 +147,12 @@ def lemma_uuid_widths(v):
     a32 = core.UUID.from_32_bits(v)
     a16 = core.UUID.from_16_bits(v)
     a128 = core.UUID.from_bytes(core.UUID.BASE_UUID + bytes([v % 256, v // 256, 0, 0]))
-    assert a16 == a32 and a32 == a128 and a16 == a128
-    assert len(a16.to_bytes()) == 2 and len(a32.to_bytes()) == 4 and len(a128.to_bytes()) == 16
+    assert a16 == a32
+    assert a32 == a128
+    assert a16 == a128
+    assert len(a16.to_bytes()) == 2
+    assert len(a32.to_bytes()) == 4
+    assert len(a128.to_bytes()) == 16
     assert a16.to_bytes() == bytes([v % 256, v // 256])
     assert a32.to_bytes() == bytes([v % 256, v // 256, 0, 0])
     # parsing the 16-bit form again (now that equal 32- and 128-bit ones are registered) still gives 16 bits
@@ -173,7 +179,9 @@ def lemma_uuid_history(b1, b2):
     u2 = core.UUID.from_bytes(b2)
     u3 = core.UUID.from_bytes(b1)
     # whatever was parsed in between, every parsed UUID re-serialises to the bytes it was parsed from
-    assert u1.to_bytes() == b1 and u2.to_bytes() == b2 and u3.to_bytes() == b1
+    assert u1.to_bytes() == b1
+    assert u2.to_bytes() == b2
+    assert u3.to_bytes() == b1
     assert u1 == u3
     # distinct byte strings of the same width are different UUIDs
     assert implies(len(b1) == len(b2) and b1 != b2, not (u1 == u2))
@@ -330,12 +338,17 @@ def sdp_reparse(e, b):
     """parse b with the real parser (both entry points); the result equals e, consumed everything, re-serialises to b"""
     p = sdp.DataElementParser(b)
     g = p.parse_next()
-    assert p.offset == len(b) and p.depth == 0
-    assert g.type == e.type and g.value_size == e.value_size
+    assert p.offset == len(b)
+    assert p.depth == 0
+    assert g.type == e.type
+    assert g.value_size == e.value_size
     assert g == e
-    assert g._bytes == b and bytes(g) == b
+    assert g._bytes == b
+    assert len(g._bytes) >= 1
+    assert bytes(g) == b
     end, h = DE.parse_from_bytes(b, 0)
-    assert end == len(b) and h == e
+    assert end == len(b)
+    assert h == e
     return g
 
 
@@ -353,7 +366,9 @@ lemma('sdp_nil_roundtrip', lemma_sdp_nil, prop='C18', params={}, inline=SDP_RT_I
 def lemma_sdp_uint(value, n):
     e = DE.unsigned_integer(value, n)
     b = bytes(e)
-    assert len(b) == 1 + n and b[0] == S.UINT * 8 + SIZE_INDEX[n] and S.be_uint(b, 1, n) == value
+    assert len(b) == 1 + n
+    assert b[0] == S.UINT * 8 + SIZE_INDEX[n]
+    assert S.be_uint(b, 1, n) == value
     g = sdp_reparse(e, b)
     assert g.value == value
 
@@ -361,7 +376,9 @@ def lemma_sdp_uint(value, n):
 def lemma_sdp_sint(value, n):
     e = DE.signed_integer(value, n)
     b = bytes(e)
-    assert len(b) == 1 + n and b[0] == S.SINT * 8 + SIZE_INDEX[n] and S.be_sint(b, 1, n) == value
+    assert len(b) == 1 + n
+    assert b[0] == S.SINT * 8 + SIZE_INDEX[n]
+    assert S.be_sint(b, 1, n) == value
     g = sdp_reparse(e, b)
     assert g.value == value
 
@@ -400,13 +417,19 @@ def lemma_sdp_uuid(ub):
     e = DE.uuid(u)
     b = bytes(e)
     n = len(ub)
-    assert len(b) == 1 + n and b[0] == S.UUID * 8 + SIZE_INDEX[n] and is_reversed(ub, b, 1 + n, n)  # big-endian on the wire
+    assert len(b) == 1 + n
+    assert b[0] == S.UUID * 8 + SIZE_INDEX[n]
+    assert is_reversed(ub, b, 1 + n, n)  # big-endian on the wire
     p = sdp.DataElementParser(b)
     g = p.parse_next()
-    assert p.offset == len(b) and p.depth == 0
-    assert g.type == DE.UUID and g.value == u and g.value.to_bytes() == ub  # same value, same width
+    assert p.offset == len(b)
+    assert p.depth == 0
+    assert g.type == DE.UUID
+    assert g.value == u
+    assert g.value.to_bytes() == ub  # same value, same width
     assert g == e
-    assert g._bytes == b and bytes(g) == b
+    assert g._bytes == b
+    assert bytes(g) == b
     assert bytes(DE.uuid(g.value)) == b  # also without the cache
 
 
@@ -422,10 +445,12 @@ def lemma_sdp_nested(t1, t2, a, b, c, d, u):
     bs = bytes(e)
     p = sdp.DataElementParser(bs)
     g = p.parse_next()
-    assert p.offset == len(bs) and p.depth == 0
+    assert p.offset == len(bs)
+    assert p.depth == 0
     assert g == e
     assert bytes(g) == bs
-    assert g.value[1].value[1].value == c and g.value[1]._bytes == bytes(inner)
+    assert g.value[1].value[1].value == c
+    assert g.value[1]._bytes == bytes(inner)
 
 
 lemma(
@@ -477,7 +502,7 @@ def lemma_ad_fields(structs):
     assert bytes(ad2) == b
 
 
-for _n in range(0, 4):
+for _n in range(0, 3):
     lemma(f'advertising_data_roundtrip_{_n}_bounded', lemma_ad_fields, prop='C18',
           params=dict(structs=ConcList(TupleOf(IntRange(0, 255), Bytes), _n)),
           requires=lambda structs: [len(x[1]) <= 254 for x in structs],
@@ -498,22 +523,32 @@ ADDRESS_TYPES = (AT.PUBLIC_DEVICE, AT.RANDOM_DEVICE, AT.PUBLIC_IDENTITY, AT.RAND
 
 def lemma_address_fields(ab, address_type, pre, post):
     a = hci.Address(ab, address_type)
-    assert bytes(a) == ab and a.address_type == address_type
+    assert bytes(a) == ab
+    assert a.address_type == address_type
     # object -> bytes -> object at any offset of a larger buffer, type given by the caller ...
     data = pre + bytes(a) + post
     end, b = hci.Address.parse_address_with_type(data, len(pre), address_type)
     assert end == len(pre) + 6
-    assert b == a and bytes(b) == ab and b.address_type == address_type and b.is_public == a.is_public
+    assert b == a
+    assert bytes(b) == ab
+    assert b.address_type == address_type
+    assert b.is_public == a.is_public
     # ... or carried in the byte before the address
     data2 = pre + bytes([address_type]) + bytes(a) + post
     end2, c = hci.Address.parse_address_preceded_by_type(data2, len(pre) + 1)
     assert end2 == len(pre) + 7
-    assert c == a and bytes(c) == ab and c.address_type == address_type
+    assert c == a
+    assert bytes(c) == ab
+    assert c.address_type == address_type
     # the type-less forms fix the type
     end3, d = hci.Address.parse_address(data, len(pre))
     end4, r = hci.Address.parse_random_address(data, len(pre))
-    assert bytes(d) == ab and d.address_type == AT.PUBLIC_DEVICE and bytes(r) == ab and r.address_type == AT.RANDOM_DEVICE
-    assert a.clone() == a and bytes(a.clone()) == ab
+    assert bytes(d) == ab
+    assert d.address_type == AT.PUBLIC_DEVICE
+    assert bytes(r) == ab
+    assert r.address_type == AT.RANDOM_DEVICE
+    assert a.clone() == a
+    assert bytes(a.clone()) == ab
 
 
 lemma('address_fields_roundtrip', lemma_address_fields, prop='C18',
@@ -523,7 +558,9 @@ lemma('address_fields_roundtrip', lemma_address_fields, prop='C18',
 def lemma_address_bytes(data, offset):
     # bytes -> object -> bytes for every 6-byte window; the object keeps exactly those bytes
     end, a = hci.Address.parse_address(data, offset)
-    assert end == offset + 6 and bytes(a) == data[offset : offset + 6] and len(bytes(a)) == 6
+    assert end == offset + 6
+    assert bytes(a) == data[offset : offset + 6]
+    assert len(bytes(a)) == 6
 
 
 lemma('address_bytes_roundtrip', lemma_address_bytes, prop='C18', params=dict(data=Bytes, offset=Int),
@@ -553,10 +590,15 @@ def lemma_l2cap_pdu(cid, payload):
     p = l2cap.L2CAP_PDU(cid, payload)
     b = bytes(p)
     assert len(b) == 4 + len(payload)
-    assert b[0] == len(payload) % 256 and b[1] == len(payload) // 256 and b[2] == cid % 256 and b[3] == cid // 256 and b[4:] == payload
+    assert b[0] == len(payload) % 256
+    assert b[1] == len(payload) // 256
+    assert b[2] == cid % 256
+    assert b[3] == cid // 256
+    assert b[4:] == payload
     assert b == p.to_bytes(with_fcs=False)
     q = l2cap.L2CAP_PDU.from_bytes(b)
-    assert q.cid == cid and q.payload == payload
+    assert q.cid == cid
+    assert q.payload == payload
     assert bytes(q) == b
 
 
@@ -568,14 +610,21 @@ def lemma_l2cap_pdu_fcs(cid, payload):
     p = l2cap.L2CAP_PDU(cid, payload)
     b = p.to_bytes(with_fcs=True)
     n = len(payload) + 2  # the length field covers the FCS
-    assert len(b) == 4 + n and b[0] == n % 256 and b[1] == n // 256 and b[2] == cid % 256 and b[3] == cid // 256
+    assert len(b) == 4 + n
+    assert b[0] == n % 256
+    assert b[1] == n // 256
+    assert b[2] == cid % 256
+    assert b[3] == cid // 256
     assert b[4 : 4 + len(payload)] == payload
     # the FCS is computed over header + payload and sent least significant octet first
     fcs = uf('crc_16', b[: 4 + len(payload)])
-    assert b[4 + len(payload)] == fcs % 256 and b[5 + len(payload)] == fcs // 256
+    assert b[4 + len(payload)] == fcs % 256
+    assert b[5 + len(payload)] == fcs // 256
     # the receiver sees a basic frame whose payload still carries the FCS; re-serialising it gives the same bytes
     q = l2cap.L2CAP_PDU.from_bytes(b)
-    assert q.cid == cid and len(q.payload) == n and q.payload[: len(payload)] == payload
+    assert q.cid == cid
+    assert len(q.payload) == n
+    assert q.payload[: len(payload)] == payload
     assert bytes(q) == b
 
 
@@ -586,10 +635,15 @@ lemma('l2cap_pdu_fcs_roundtrip', lemma_l2cap_pdu_fcs, prop='C18', params=dict(ci
 def lemma_l2cap_pdu_bytes(b):
     q = l2cap.L2CAP_PDU.from_bytes(b)
     # (proof hints: field values, then the re-serialised header byte by byte, then the payload)
-    assert q.cid == b[2] + 256 * b[3] and q.payload == b[4:] and len(q.payload) == b[0] + 256 * b[1]
+    assert q.cid == b[2] + 256 * b[3]
+    assert q.payload == b[4:]
+    assert len(q.payload) == b[0] + 256 * b[1]
     r = bytes(q)
     assert len(r) == len(b)
-    assert r[0] == b[0] and r[1] == b[1] and r[2] == b[2] and r[3] == b[3]
+    assert r[0] == b[0]
+    assert r[1] == b[1]
+    assert r[2] == b[2]
+    assert r[3] == b[3]
     assert r[:4] == b[:4]
     assert r[4:] == b[4:]
     assert r == b
@@ -622,7 +676,8 @@ def lemma_psm(bs, pre, post):
     assert s == bs
     data = pre + s + post
     end, v = CR.parse_psm(data, len(pre))
-    assert end == len(pre) + len(bs) and v == psm
+    assert end == len(pre) + len(bs)
+    assert v == psm
     assert CR.serialize_psm(v) == data[len(pre) : end]
 
 
@@ -678,9 +733,14 @@ def lemma_pn_fields(dlci, cl, priority, ack_timer, max_frame_size, max_retransmi
                               max_retransmissions=max_retransmissions, initial_credits=initial_credits)
     b = bytes(pn)
     assert len(b) == 8
-    assert b[0] == dlci and b[1] == cl and b[2] == priority and b[3] == ack_timer
-    assert b[4] == max_frame_size % 256 and b[5] == max_frame_size // 256  # N1, least significant octet first
-    assert b[6] == max_retransmissions and b[7] == initial_credits
+    assert b[0] == dlci
+    assert b[1] == cl
+    assert b[2] == priority
+    assert b[3] == ack_timer
+    assert b[4] == max_frame_size % 256
+    assert b[5] == max_frame_size // 256  # N1, least significant octet first
+    assert b[6] == max_retransmissions
+    assert b[7] == initial_credits
     q = rfcomm.RFCOMM_MCC_PN.from_bytes(b)
     assert q == pn
     assert bytes(q) == b
@@ -741,11 +801,18 @@ def lemma_rtp_fields_many(version, padding, extension, marker, sequence_number, 
     # same statement as lemma_rtp_fields of c18_codecs.py, with the CSRC words compared one by one first (proof hints)
     p = rtp.MediaPacket(version, padding, extension, marker, sequence_number, timestamp, ssrc, csrc_list, payload_type, payload)
     b = bytes(p)
-    assert len(b) == 12 + 4 * len(csrc_list) + len(payload) and b[0] % 16 == len(csrc_list)
+    assert len(b) == 12 + 4 * len(csrc_list) + len(payload)
+    assert b[0] % 16 == len(csrc_list)
     q = rtp.MediaPacket.from_bytes(b)
-    assert q.version == version and q.padding == padding and q.extension == extension and q.marker == marker
-    assert q.sequence_number == sequence_number and q.timestamp == timestamp and q.ssrc == ssrc
-    assert q.payload_type == payload_type and q.payload == payload
+    assert q.version == version
+    assert q.padding == padding
+    assert q.extension == extension
+    assert q.marker == marker
+    assert q.sequence_number == sequence_number
+    assert q.timestamp == timestamp
+    assert q.ssrc == ssrc
+    assert q.payload_type == payload_type
+    assert q.payload == payload
     assert len(q.csrc_list) == len(csrc_list)
     for i in range(len(csrc_list)):
         assert q.csrc_list[i] == csrc_list[i]
